@@ -21,6 +21,7 @@ class ModuleInfo:
         self.defs = {}  # name -> ast node (FunctionDef / ClassDef / value expr of Assign)
         self.imports = {}  # local name -> (module name, attr or None)
         self.assigns = {}  # name -> ast expr (last top-level assignment)
+        self.stars = []  # modules imported with `from m import *`
         self.is_package = os.path.basename(path) == "__init__.py"
         self._scan(self.tree.body)
 
@@ -54,7 +55,10 @@ class ModuleInfo:
                     base = base[: len(base) - (node.level - 1)]
                     mod = ".".join(base + ([mod] if mod else []))
                 for a in node.names:
-                    self.imports[a.asname or a.name] = (mod, a.name)
+                    if a.name == "*":
+                        self.stars.append(mod)
+                    else:
+                        self.imports[a.asname or a.name] = (mod, a.name)
             elif isinstance(node, (ast.If, ast.Try)):
                 # e.g. try: import x / except ImportError
                 self._scan(node.body)
